@@ -610,6 +610,9 @@ fn run_unit(ctx: &str, enc: Encoding, e: RunTimeEndian, t: &[&str]) -> String {
             unit.get_mut(c).set(MARK, AttributeValue::Data1(k));
             ids.other_entries.push(c);
         }
+        // `o 3`: reserved, never added, beyond the other unit's entries vector
+        let r = unit.reserve();
+        ids.other_entries.push(r);
     };
     if other_mode == 1 {
         add_other(&mut dwarf, &mut ids);
@@ -631,6 +634,12 @@ fn run_unit(ctx: &str, enc: Encoding, e: RunTimeEndian, t: &[&str]) -> String {
                 let id = ids.entries[k + 1];
                 unit.get_mut(root).delete_child(id);
             }
+        }
+        // two ids that are reserved and never added: they lie beyond the unit's entries vector (entry indices
+        // kids.len()+1 and kids.len()+2 of the scripts)
+        for _ in 0..2 {
+            let id = unit.reserve();
+            ids.entries.push(id);
         }
     }
     if other_mode == 2 {
@@ -926,6 +935,252 @@ fn run_nest(t: &[&str]) -> String {
         return "readback-mismatch innermost".into();
     }
     format!("ok {}", total)
+}
+
+
+// ---------------------------------------------------------------------------------------------------------
+// c11.glue (dispatched from c11.rs): the composed writer model Model/UnitGlueWr.v against Dwarf::write.
+//
+// case: c11.glue <version> <fmt 0|1> <asize> <be 0|1> <kids> <other 0|1|2> <low_pc|-1>
+//         <nR> { <len> { b <addr> | o <b> <e> | e <b> <e> | l <b> <len> } }          range lists
+//         <nL> { <len> { b <addr> | o <b> <e> | e <b> <e> | l <b> <len> | d } }      location lists; every
+//                                                      non-base entry carries a clone of the script's expression
+//         <nA> { <entry> <at> ( x | r <i> | l <i> | i <k|o> <n> | u <n> | d <v> ) }  attributes: Exprloc(script),
+//                                                      RangeListRef, LocationListRef, DebugInfoRef, UnitRef, Udata
+//         <script...>                                   as c15.expr
+// result: `ok <.debug_info> <.debug_ranges> <.debug_rnglists> <.debug_loc> <.debug_loclists> <fx info> <fx loc>
+//          <fx loclists>` (sections after Dwarf::write, hex; fx = the write_offset_at calls UnitTable::write made on
+//          that section = the resolved DebugInfoFixups as off:size:value, in order) | `err <Variant>` | `panic`
+#[derive(Clone)]
+struct RecVec {
+    v: EndianVec<RunTimeEndian>,
+    log: Vec<(usize, u64, u8)>,
+}
+impl write::Writer for RecVec {
+    type Endian = RunTimeEndian;
+    fn endian(&self) -> RunTimeEndian {
+        self.v.endian()
+    }
+    fn len(&self) -> usize {
+        self.v.len()
+    }
+    fn write(&mut self, bytes: &[u8]) -> write::Result<()> {
+        self.v.write(bytes)
+    }
+    fn write_at(&mut self, offset: usize, bytes: &[u8]) -> write::Result<()> {
+        self.v.write_at(offset, bytes)
+    }
+    fn write_offset_at(&mut self, offset: usize, val: usize, _section: SectionId, size: u8) -> write::Result<()> {
+        self.log.push((offset, val as u64, size));
+        self.write_udata_at(offset, val as u64, size)
+    }
+}
+
+pub fn run_glue(t: &[&str]) -> String {
+    use gimli::write::{Range, RangeList, Writer};
+    let version = u(t[1]) as u16;
+    let format = if t[2] == "1" { Format::Dwarf64 } else { Format::Dwarf32 };
+    let address_size = u(t[3]) as u8;
+    let e = endian(t[4]);
+    let enc = Encoding { format, version, address_size };
+    let kids = t[5];
+    let other_mode = us(t[6]);
+    let low_pc = i(t[7]);
+    let mut p = 8usize;
+    macro_rules! tok {
+        () => {{
+            p += 1;
+            t[p - 1]
+        }};
+    }
+    // lists (expressions are attached after the script is built)
+    #[derive(Clone)]
+    enum Le {
+        B(u64),
+        O(u64, u64),
+        E(u64, u64),
+        L(u64, u64),
+        D,
+    }
+    let mut read_lists = |p: &mut usize| -> Vec<Vec<Le>> {
+        let n = us(t[*p]);
+        *p += 1;
+        let mut out = Vec::new();
+        for _ in 0..n {
+            let len = us(t[*p]);
+            *p += 1;
+            let mut l = Vec::new();
+            for _ in 0..len {
+                let k = t[*p];
+                *p += 1;
+                match k {
+                    "b" => {
+                        l.push(Le::B(u(t[*p])));
+                        *p += 1;
+                    }
+                    "d" => l.push(Le::D),
+                    _ => {
+                        let a = u(t[*p]);
+                        let b = u(t[*p + 1]);
+                        *p += 2;
+                        l.push(match k {
+                            "o" => Le::O(a, b),
+                            "e" => Le::E(a, b),
+                            _ => Le::L(a, b),
+                        });
+                    }
+                }
+            }
+            out.push(l);
+        }
+        out
+    };
+    let rlists = read_lists(&mut p);
+    let llists = read_lists(&mut p);
+    enum Ak {
+        X,
+        R(usize),
+        L(usize),
+        I(Rf),
+        U(usize),
+        D(u64),
+    }
+    let na = us(tok!());
+    let mut attrs: Vec<(usize, u16, Ak)> = Vec::new();
+    for _ in 0..na {
+        let en = us(tok!());
+        let at = u(tok!()) as u16;
+        let k = tok!();
+        let ak = match k {
+            "x" => Ak::X,
+            "r" => Ak::R(us(tok!())),
+            "l" => Ak::L(us(tok!())),
+            "i" => Ak::I(parse_ref(t, &mut p)),
+            "u" => Ak::U(us(tok!())),
+            _ => Ak::D(u(tok!())),
+        };
+        attrs.push((en, at, ak));
+    }
+    let script = parse(t, &mut p);
+
+    let mut dwarf = Dwarf::new();
+    let other_enc = Encoding { format: Format::Dwarf32, version: 4, address_size: 8 };
+    let mut ids = Ids { main: None, entries: Vec::new(), other: None, other_entries: Vec::new() };
+    let add_other = |dwarf: &mut Dwarf, ids: &mut Ids| {
+        let id = dwarf.units.add(Unit::new(other_enc, LineProgram::none()));
+        let unit = dwarf.units.get_mut(id);
+        let root = unit.root();
+        ids.other = Some(id);
+        ids.other_entries.push(root);
+        for k in 0..2u8 {
+            let c = unit.add(root, constants::DW_TAG_variable);
+            unit.get_mut(c).set(MARK, AttributeValue::Data1(k));
+            ids.other_entries.push(c);
+        }
+        // `o 3`: reserved, never added, beyond the other unit's entries vector
+        let r = unit.reserve();
+        ids.other_entries.push(r);
+    };
+    if other_mode == 1 {
+        add_other(&mut dwarf, &mut ids);
+    }
+    let main_id = dwarf.units.add(Unit::new(enc, LineProgram::none()));
+    ids.main = Some(main_id);
+    {
+        let unit = dwarf.units.get_mut(main_id);
+        let root = unit.root();
+        ids.entries.push(root);
+        if low_pc >= 0 {
+            unit.get_mut(root).set(constants::DW_AT_low_pc, AttributeValue::Address(Address::Constant(low_pc as u64)));
+        }
+        for (k, c) in kids.chars().enumerate() {
+            let tag = if c == 'b' { constants::DW_TAG_base_type } else { constants::DW_TAG_variable };
+            let id = unit.add(root, tag);
+            unit.get_mut(id).set(MARK, AttributeValue::Data1(k as u8));
+            ids.entries.push(id);
+        }
+        for (k, c) in kids.chars().enumerate() {
+            if c == 'x' {
+                let id = ids.entries[k + 1];
+                unit.get_mut(root).delete_child(id);
+            }
+        }
+        // two ids that are reserved and never added: they lie beyond the unit's entries vector (entry indices
+        // kids.len()+1 and kids.len()+2 of the scripts)
+        for _ in 0..2 {
+            let id = unit.reserve();
+            ids.entries.push(id);
+        }
+    }
+    if other_mode == 2 {
+        add_other(&mut dwarf, &mut ids);
+    }
+    let expr = build(&script, &ids);
+    {
+        let unit = dwarf.units.get_mut(main_id);
+        let mut rids = Vec::new();
+        for l in &rlists {
+            let v: Vec<Range> = l
+                .iter()
+                .map(|x| match *x {
+                    Le::B(a) => Range::BaseAddress { address: Address::Constant(a) },
+                    Le::O(b, e) => Range::OffsetPair { begin: b, end: e },
+                    Le::E(b, e) => Range::StartEnd { begin: Address::Constant(b), end: Address::Constant(e) },
+                    Le::L(b, n) => Range::StartLength { begin: Address::Constant(b), length: n },
+                    Le::D => Range::OffsetPair { begin: 0, end: 0 },
+                })
+                .collect();
+            rids.push(unit.ranges.add(RangeList(v)));
+        }
+        let mut lids = Vec::new();
+        for l in &llists {
+            let v: Vec<Location> = l
+                .iter()
+                .map(|x| match *x {
+                    Le::B(a) => Location::BaseAddress { address: Address::Constant(a) },
+                    Le::O(b, e) => Location::OffsetPair { begin: b, end: e, data: expr.clone() },
+                    Le::E(b, e) => Location::StartEnd { begin: Address::Constant(b), end: Address::Constant(e), data: expr.clone() },
+                    Le::L(b, n) => Location::StartLength { begin: Address::Constant(b), length: n, data: expr.clone() },
+                    Le::D => Location::DefaultLocation { data: expr.clone() },
+                })
+                .collect();
+            lids.push(unit.locations.add(LocationList(v)));
+        }
+        for (en, at, ak) in &attrs {
+            let id = ids.entries[*en];
+            let v = match ak {
+                Ak::X => AttributeValue::Exprloc(expr.clone()),
+                Ak::R(i) => AttributeValue::RangeListRef(rids[*i]),
+                Ak::L(i) => AttributeValue::LocationListRef(lids[*i]),
+                Ak::I(r) => AttributeValue::DebugInfoRef(ids.dref(r)),
+                Ak::U(n) => AttributeValue::UnitRef(ids.entries[*n]),
+                Ak::D(v) => AttributeValue::Udata(*v),
+            };
+            unit.get_mut(id).set(constants::DwAt(*at), v);
+        }
+    }
+    let mut sections = Sections::new(RecVec { v: EndianVec::new(e), log: Vec::new() });
+    if let Err(x) = dwarf.write(&mut sections) {
+        return err(&x);
+    }
+    let fx = |l: &Vec<(usize, u64, u8)>| -> String {
+        if l.is_empty() {
+            "-".to_string()
+        } else {
+            l.iter().map(|(o, v, s)| format!("{}:{}:{}", o, s, v)).collect::<Vec<_>>().join(",")
+        }
+    };
+    format!(
+        "ok {} {} {} {} {} {} {} {}",
+        tohex(sections.debug_info.0.v.slice()),
+        tohex(sections.debug_ranges.0.v.slice()),
+        tohex(sections.debug_rnglists.0.v.slice()),
+        tohex(sections.debug_loc.0.v.slice()),
+        tohex(sections.debug_loclists.0.v.slice()),
+        fx(&sections.debug_info.0.log),
+        fx(&sections.debug_loc.0.log),
+        fx(&sections.debug_loclists.0.log)
+    )
 }
 
 pub fn run(t: &[&str]) -> String {
